@@ -145,7 +145,21 @@ def rerun_cases(draw):
     return case
 
 
-PARTS = {"space": body, "k1_sequential_dask": body, "rerun": body}
+def long_expression_cases():
+    """Value lists given as short numpy expressions that denote MORE values than the expression has characters ("lists of any length")."""
+    out = []
+    for expr, vals in (("numpy.arange(22)", list(range(22))), ("numpy.arange(3, 28)", list(range(3, 28))), ("numpy.linspace(0,40,21)", [2.0 * i for i in range(21)])):
+        long_p = {"key": KEYS[0], "values": vals, "expr": expr, "enabled": True, "render": "expr"}
+        other = {"key": KEYS[2], "values": [1.5, 2.25], "enabled": True, "render": "list"}
+        for dask in (False, True):
+            out.append({"mode": "product", "dask": dask, "params": [dict(long_p)]})
+            out.append({"mode": "product", "dask": dask, "params": [dict(long_p), dict(other)]})
+            out.append({"mode": "product", "dask": dask, "params": [dict(other), dict(long_p)]})
+        out.append({"mode": "sequential", "dask": False, "params": [dict(long_p), dict(other)]})
+    return out
+
+
+PARTS = {"space": body, "k1_sequential_dask": body, "rerun": body, "long_expressions": body}
 
 
 def known_key(part, clause, case, detail):
@@ -160,4 +174,5 @@ def plan(tier):
         Part(name="space", kind="gen", strategy=lambda: spaces(with_names=True), examples=120 if tier == "quick" else 600),
         Part(name="rerun", kind="gen", strategy=rerun_cases, examples=40 if tier == "quick" else 300),
         Part(name="k1_sequential_dask", kind="enum", cases=k1_cases, shards=1),
+        Part(name="long_expressions", kind="enum", cases=long_expression_cases),
     ]
